@@ -16,6 +16,12 @@
 
 Conservative oracle: when in doubt a token is treated as "may return" (e.g. `-o` with an empty name, `-tJUNK`, `-O01`),
 so everything reported is an option our reading of the help text clearly calls unknown or malformed.
+
+Bounds (environment, set per condition by engines/xhair.py): XH_N maximal token / value length; XH_ALPHA the characters a
+symbolic token may contain (default: all code points < 128) - load_commandline_flags calls .upper() / int() / Enum(value)
+on the text, which CrossHair executes by solver enumeration of the concrete texts, so length x alphabet must stay small;
+XH_RELATED=1|2 smaller option tables for argv_order / argv_filepos (indices into the concrete table are likewise
+enumerated by the solver); XH_NP/XH_P case split.  Variants __reach / __in_<k> / __excl / __explain as in k_c15.py.
 """
 import os, sys, io, contextlib
 from typing import List
